@@ -13,7 +13,8 @@ TARGETS = ['theories/Proofs/TokenizerProofs.v', 'theories/Proofs/GrammarObligati
            'theories/Proofs/LineOffsetProofs.v', 'theories/Proofs/WriterFlagProofs.v', 'theories/Proofs/WriterUnitsProofs.v',
            'theories/Proofs/ParseTraceProofs.v', 'theories/Proofs/LinePreservationProofs.v', 'theories/Run/RunLoad.v', 'theories/Proofs/EditLocalityProofs.v',
            'theories/Proofs/IfdataLinesProofs.v', 'theories/Proofs/IfdataWriteLinesProofs.v', 'theories/Proofs/IfdataLinePreservationProofs.v',
-           'theories/Proofs/IfdataUnknownLinesProofs.v']
+           'theories/Proofs/IfdataUnknownLinesProofs.v', 'theories/Proofs/IfdataWriteAnyProofs.v', 'theories/Proofs/IfdataShapeProofs.v',
+           'theories/Proofs/IfdataUnknownShapeProofs.v']
 RULE = ('edit locality: a MODULE with 0..64 children of 8 kinds in mixed order x histories of 2..10 single-object edits through the API (push of a new object, long identifier changed, order-preserving removal, swap_remove) with the text written after every step - each step may change only the lines of its object; layout: valid documents in canonical element order with random line breaks / blank lines between tokens, block-level comments of both '
         'kinds, /begin and /end on the line of their tag, no raw line breaks in strings (documents outside this class are filtered out and '
         'counted); plus the written text of every document fed back (own format must be a byte-exact fixpoint); '
